@@ -16,7 +16,7 @@ CHECKS = {
             'Model-free: the single-call result is tied to the Standard by C01. Capacities never below the documented minimum; raw `after` not compared.',
             'DESIGN.md sec. 6 C02, sec. 4'),
     'C03': ('differential testing against a reference model of the Standard\'s encoders; ' + PBT,
-            'Exploration with an explicit oracle: every scalar value alone through all 40 encodings from UTF-8 and UTF-16, raw and with replacement (exhaustive), every ordered pair (triples for ISO-2022-JP / thorough) over per-encoder class alphabets incl. lone surrogates, every BMP scalar directly after and before each state-setting context through slice and Vec methods with the end of the stream on the data call or on an empty call, two non-ASCII characters at stride-relevant distances inside ASCII, longer texts also through an output buffer shorter than the output, and seeded random texts, compared with an independent transcription of the Standard\'s encoders on frozen index data; thorough repeats it in the less-slow-*, fast-* and simd-accel builds.',
+            'Exploration with an explicit oracle: every scalar value alone through all 40 encodings from UTF-8 and UTF-16, raw and with replacement (exhaustive), every ordered pair (triples for ISO-2022-JP / thorough) over per-encoder class alphabets incl. lone surrogates, every BMP scalar directly after and before each state-setting context through slice and Vec methods with the end of the stream on the data call or on an empty call, two non-ASCII characters at stride-relevant distances inside ASCII, longer texts also through an output buffer shorter than the output, and seeded random texts, compared with an independent transcription of the Standard\'s encoders on frozen index data; both tiers repeat it in the less-slow-*, fast-* and simd-accel builds; plus the low-bits alias family for encoders that might remember a previous lookup.',
             'Trusts the frozen golden data and my transcription of the pointer rules, GB18030-2022 overrides and the ISO-2022-JP state machine.',
             'DESIGN.md sec. 6 C03, sec. 3'),
     'C04': ('metamorphic / differential testing of encoder call histories (chunked vs single call, UTF-8 vs UTF-16 source); ' + PBT,
@@ -60,8 +60,8 @@ CHECKS = {
             'Trusts data/labels.txt.',
             'DESIGN.md sec. 6 C13'),
     'C14': ('differential testing against std::str::from_utf8 / naive scans over planted-defect families at every length, position and alignment, with the scalar path forced through the hook; ' + PBT,
-            'Exploration: every validator x lengths 0..=160 (320) x alignments x fillers x every invalid class at every position with a second defect at stride-relevant distances, ASCII fillers of letters / spaces / punctuation, buffers of 2^k +- 2 units to 65536, the UTF-8 table sweep (every lead x second pair, every three-byte string), valid character x near-valid sequence pairs, runs of three same-length sequences, all pairs of 48 boundary code units, every triple of 14 units directly after a surrogate pair + seeded random; default and simd-accel builds, SIMD-validator path and forced scalar path.',
-            'Only this CPU\'s dispatch arms (AVX2 simdutf8 + scalar via hook).',
+            'Exploration: every validator x lengths 0..=160 (320) x alignments x fillers x every invalid class at every position with a second defect at stride-relevant distances, ASCII fillers of letters / spaces / punctuation, buffers of 2^k +- 2 units to 65536, the UTF-8 table sweep (every lead x second pair, every three-byte string), valid character x near-valid sequence pairs, runs of three same-length sequences, all pairs of 48 boundary code units, every triple of 14 units directly after a surrogate pair + seeded random; default and simd-accel builds, builds with AVX2 / SSE4.2 enabled at compile time (the other copies of the validator dispatch), SIMD-validator path and forced scalar path.',
+            'All x86-64 dispatch arms (run-time detection, compile-time AVX2, compile-time SSE4.2, scalar via hook); other architectures cannot be executed here.',
             'DESIGN.md sec. 6 C14'),
     'C15': ('differential testing of every mem conversion against std-based reference conversions, incl. encodeInto semantics for *_partial; ' + PBT,
             'Exploration: every mem conversion x source lengths x planted unit classes at every position x destination lengths around the planted position x alignments x fills, a second planted unit at stride-relevant distances, space / punctuation fillers, buffers of 2^k +- 2 units, the UTF-8 table sweep, adjacent-pair families, pairs of near-valid sequences + seeded random; default and simd-accel builds. F5 (bytes beyond written modified in simd-accel builds) is a recorded open finding.',
